@@ -33,6 +33,9 @@ type Contract struct {
 	Modifies []*Clause
 	Loops    map[int]*LoopSpec
 	Calls    []*CallSpec
+	Hofs     map[string]*LoopSpec // caller-side invariants for higher-order loop schemas
+	FnParams map[string][]*Clause // assumed postconditions of function-typed parameters
+	Uses     []string             // lemmas assumed in this function's VCs
 	Trusted  bool // contract assumed at call sites, body not verified
 	Pure     bool
 	BV       bool
@@ -265,6 +268,13 @@ func (e *Engine) LoadContractFile(file, pkgPath string) error {
 		case "package":
 			pkgPath = rest
 			cur = nil
+		case "ghost":
+			ws := strings.Fields(rest)
+			if len(ws) != 2 {
+				return fail(fmt.Errorf("ghost <name> <sort>"))
+			}
+			e.Ghosts = append(e.Ghosts, &GhostSpec{Name: ws[0], Sort: ws[1], Pkg: pkgPath})
+			cur = nil
 		case "global":
 			ws := strings.Fields(rest)
 			if len(ws) < 2 {
@@ -381,6 +391,32 @@ func (e *Engine) LoadContractFile(file, pkgPath string) error {
 					ls.Hints = append(ls.Hints, c)
 				default:
 					return fail(fmt.Errorf("loop clause %q", w3))
+				}
+			case "use":
+				// use <lemma>, ...: assume (separately proved) lemmas in this function's VCs
+				for _, u := range strings.Split(rest, ",") {
+					if u = strings.TrimSpace(u); u != "" {
+						cur.Uses = append(cur.Uses, u)
+					}
+				}
+			case "fnparam":
+				// fnparam <name> ensures <expr>
+				pn, r1 := splitWord(rest)
+				w, r2 := splitWord(r1)
+				if w != "ensures" {
+					return fail(fmt.Errorf("fnparam <name> ensures <expr>"))
+				}
+				c, err := parseClause(r2)
+				if err != nil {
+					return fail(err)
+				}
+				if cur.FnParams == nil {
+					cur.FnParams = map[string][]*Clause{}
+				}
+				cur.FnParams[pn] = append(cur.FnParams[pn], c)
+			case "hof":
+				if err := parseHofClause(cur, rest); err != nil {
+					return fail(err)
 				}
 			case "calls":
 				cs, err := parseCallSpec(rest)
